@@ -18,7 +18,18 @@ REQUIRED_FAULTS = ["F6.eio_on_open", "F6.eio_at_offset", "F6.eacces_on_open", "F
 MACHINES = ["M-TI", "M-IM"]
 
 MiB = 1 << 20
-ALGOS = sorted(a for a in hashlib.algorithms_guaranteed if not a.startswith("shake"))
+def _offered(name):
+    try:
+        hashlib.new(name)
+        return True
+    except (ValueError, TypeError):
+        return False
+
+
+# "all algorithms hashlib offers by name": the guaranteed ones plus other spellings hashlib.new() accepts here (OpenSSL names
+# with a dash, upper case)
+ALGOS = sorted(a for a in hashlib.algorithms_guaranteed if not a.startswith("shake")) + \
+    [a for a in ["md5-sha1", "sha3-256", "SHA256", "sha512-256", "ripemd160", "sm3", "blake2b512", "Sha1"] if _offered(a)]
 SIZES_QUICK = [0, 1, 17, 4096, MiB - 1, MiB, MiB + 1]
 SIZES_THOROUGH = SIZES_QUICK + [2 * MiB, 2 * MiB + 1, 3 * MiB - 1, 2 * MiB - 1]
 
@@ -63,6 +74,16 @@ def gen_ti_case(rng, tier):
             ops.append({"op": "ti_checksum_add", "path": rel2, "ctype": pick(rng, ALGOS), "root_dir": "/sim/tree"})
     path = "/sim/d/.treeinfo"
     ops.append({"op": "dump", "path": path})
+    if rng.random() < 0.12:
+        # "absolute paths are refused" also when the entry did not come through Checksums.add: planted in the public table
+        # next to relative names of every kind (dot files, names that sort before '/'), the tree must not be written
+        for k in range(rng.randint(0, 2)):
+            ops.append({"op": "ti_checksum_raw", "path": pick(rng, [".discinfo", ".treeinfo.bak", "-opt/x", "+plus", "!bang", "images/boot.iso", "zz"]),
+                        "ctype": "sha256", "value": hexstr(rng, 64)})
+        ops.append({"op": "ti_checksum_raw", "path": pick(rng, ["/abs/file", "/", "//server/share", "/images/boot.iso"]), "ctype": "sha256", "value": hexstr(rng, 64)})
+        ops.append({"op": "dump", "path": path})
+        ops.append({"op": "dumps"})
+        return {"machine": "M-TI", "cfg": {"simset": "insertion"}, "ops": ops}
     if rng.random() < 0.15:
         # the node restarts on a pre-productmd copy of the file (compatibility sections only): every checksum path must
         # still carry its own algorithm and value
